@@ -142,7 +142,10 @@ class Scope(Error):
             self._added.add(name)
 
     def nlri_add(self, name: str, command: str, data: Any) -> None:
-        self.get_route().nlri.add(data)
+        # add() says no by returning False (a flow prefix of the other family): dropping the
+        # rule and keeping the route would announce something else than what was written
+        if self.get_route().nlri.add(data) is False:
+            raise ValueError(f'{command} {data} can not be part of this route (IPv4 and IPv6 do not mix)')
 
     # Settings mode: deferred NLRI construction
 
